@@ -287,3 +287,39 @@ Proof.
   - eapply es_step; [|apply es_refl].
     apply (e1_field true KActivity _ F_Target (ITNil KPlace) INil); [apply e1_nil; reflexivity|reflexivity].
 Qed.
+
+(* ---- Flatten / Recipients embedded: the hypothesis on the id comparison discharged (b42) ---- *)
+(* C20_flatten_embedded and C20_recipients_embedded inherit C16's / C10's hypothesis "the comparison is symmetric
+   and transitive on the ids that occur".  For the comparison the code runs (ideq = IRI.Equals(., ., false)) it is
+   a theorem on C14's domain iri_dom; here the two statements with a decidable domain predicate on the ids instead
+   (Proofs/FlattenDomP.v):  keys_dom k fs = every id compared by a de-duplication inside Flatten<k>Properties lies in
+   iri_dom - nothing is asked of the SHAPE of the value (nil-like items, lists in lists, any depth).
+   The *_u forms: the same for the wide comparison of Model/IriEqU.v on all valid UTF-8 (iri_dom_u). *)
+From AP.Model Require Import IriNf IriEqU.
+From AP.Proofs Require Import RecipNfP FlattenDomP.
+
+Theorem C20_flatten_embedded_domain : forall k fs, keys_dom k fs = true ->
+  (exists fs', flatten_fields_m k fs = Ok fs') \/ flatten_fields_m k fs = Err.
+Proof. exact m_flatten_no_panic. Qed.
+
+Theorem C20_recipients_embedded_domain : forall k fs, has_recipients k = true ->
+  exists fs1, recip_pre ideq k fs = Ok fs1 /\
+    (forallb iri_dom (scan_order (scan_lists k fs1)) = true -> exists r x', recipients_m (IObj true k fs) = Ok (r, x')).
+Proof. exact m_recipients_total. Qed.
+
+Theorem C20_flatten_embedded_domain_u : forall k fs, keys_dom_p iri_dom_u k fs = true ->
+  (exists fs', flatten_fields idequ k fs = Ok fs') \/ flatten_fields idequ k fs = Err.
+Proof. exact u_flatten_no_panic. Qed.
+
+Theorem C20_recipients_embedded_domain_u : forall k fs, has_recipients k = true ->
+  exists fs1, recip_pre idequ k fs = Ok fs1 /\
+    (forallb iri_dom_u (scan_order (scan_lists k fs1)) = true -> exists r x', recipients idequ (IObj true k fs) = Ok (r, x')).
+Proof. exact u_recipients_total. Qed.
+
+(* non-vacuity: the deep example (typed nil pointers at depth 1-3, an embedded actor, a list in a list position)
+   satisfies both domain predicates; its flattening and its recipients end in a value *)
+Example C20_example_deep_domain :
+  keys_dom FKActivity (match ex20 with IObj _ _ fs => fs | _ => [] end) = true /\
+  forallb iri_dom (scan_order (scan_lists KActivity (match ex20 with IObj _ _ fs => fs | _ => [] end))) = true /\
+  length (scan_order (scan_lists KActivity (match ex20 with IObj _ _ fs => fs | _ => [] end))) = 2%nat.
+Proof. split; [vm_compute; reflexivity|]. split; vm_compute; reflexivity. Qed.
